@@ -383,6 +383,8 @@ def run(chk, tier):
     deleg_rule(chk, db)
     guard_rule(chk, db)
     proxy_rule(chk, db)
+    from ..rules import shift as _SH
+    _SH.check(chk, db, ["_bit/", "_bitset/"], floor=20)      # SHIFT: shift counts stay below the promoted operand width
     strbit_rule(chk, db)
     nrel = rel.check(chk, db, ["_bitset/bitset.hpp"])
     witness(chk)
